@@ -499,7 +499,14 @@ def check(drv, pid, tier, seed):
         # independent re-check of the property file and everything it depends on; lists the axioms
         tk = time.time()
         with drv.Lock():
-            rc, out = drv.run(['timeout', '3000', 'coqchk', '-silent', '-o', '-R', drv.COQ, 'Verif', 'Verif.' + pid], cwd=drv.COQ)
+            # the property file and the late proof files of this property (about the regenerated code / tables), with everything they depend on
+            late = []
+            for key in ('late_files', 'gen_proofs', 'queue_proofs', 'table_proofs'):
+                for g in (cfg.get(key) or []):
+                    for f in (g if isinstance(g, list) else [g]):
+                        if os.path.exists(os.path.join(drv.COQ, f[:-2] + '.vo')):
+                            late.append('Verif.' + f[:-2])
+            rc, out = drv.run(['timeout', '6000', 'coqchk', '-silent', '-o', '-R', drv.COQ, 'Verif', 'Verif.' + pid] + late, cwd=drv.COQ)
         summary = out[out.find('CONTEXT SUMMARY'):] if 'CONTEXT SUMMARY' in out else out[-1500:]
         coqchk = dict(exit=rc, seconds=round(time.time() - tk, 1), summary=' | '.join(l.strip() for l in summary.split('\n') if l.strip()))
         if rc != 0:
